@@ -44,6 +44,41 @@ func head(b []byte, n int) []byte {
 	return b
 }
 
+// c13CheckLongString: strings far longer than any section (whatever blocks, tables or chunked copies an
+// implementation works with, their boundaries are crossed): zero, all-ones, a counting pattern and single bits at
+// the first, the last and four inner positions.
+type c13LongLen struct {
+	Len int `json:"len"`
+}
+
+func c13CheckLongString(c c13LongLen) engine.Result {
+	var res engine.Result
+	scratch := make([]byte, 0, c.Len+8)
+	x := make([]byte, c.Len)
+	engine.Guard(&res, "ComputeCRC", func() {
+		c13One(&res, x, scratch)
+		for i := range x {
+			x[i] = 0xFF
+		}
+		c13One(&res, x, scratch)
+		for i := range x {
+			x[i] = byte(i*7 + i>>8)
+		}
+		c13One(&res, x, scratch)
+		for i := range x {
+			x[i] = 0
+		}
+		for _, pos := range []int{0, c.Len - 1, c.Len / 2, c.Len / 3, 4095 % c.Len, 4096 % c.Len} {
+			x[pos] ^= 0x10
+			c13One(&res, x, scratch)
+			x[pos] ^= 0x10
+		}
+	})
+	res.Nontrivial = res.Evals
+	res.Outcome(c.Len)
+	return res
+}
+
 type c13Short struct {
 	First int `json:"first_byte"` // -1: the strings of length 0 and 1
 	Max   int `json:"max_len"`
@@ -465,6 +500,42 @@ func init() {
 					}
 				},
 				Check: c13CheckAffine, Batch: 1,
+			},
+			&engine.Enum[c13LongLen]{
+				Name: "long-strings",
+				Rule: "lengths 1101..1110, every 2^k-4 .. 2^k+4 for k = 11..17 (around 2048, 4096, ..., 131072 bytes), 4089..4100, 5000, 12289, 65531..65540, 100000, 1000003 (thorough: every length 1101..9000): zero string, all-ones, a counting pattern and single-bit strings at six positions, value and residue against the bitwise reference (an implementation that works in blocks or through a table of any size crosses its boundaries)",
+				Gen: func(r *engine.Run, emit func(c13LongLen)) {
+					seen := map[int]bool{}
+					add := func(n int) {
+						if !seen[n] {
+							seen[n] = true
+							emit(c13LongLen{n})
+						}
+					}
+					for n := 1101; n <= 1110; n++ {
+						add(n)
+					}
+					for k := 11; k <= 17; k++ {
+						for d := -4; d <= 4; d++ {
+							add(1<<k + d)
+						}
+					}
+					for n := 4089; n <= 4100; n++ {
+						add(n)
+					}
+					for n := 65531; n <= 65540; n++ {
+						add(n)
+					}
+					for _, n := range []int{5000, 12289, 100000, 1000003} {
+						add(n)
+					}
+					if r.Thorough() {
+						for n := 1101; n <= 9000; n++ {
+							add(n)
+						}
+					}
+				},
+				Check: c13CheckLongString, Batch: 1,
 			},
 			&engine.Enum[c13Two]{
 				Name: "two-bit",
